@@ -14,7 +14,7 @@ RULE = ("each generated core statement is analysed under all 28 sqlfluff dialect
 # the legacy analyzer's own table-level blind spots (mechanism tag -> finding)
 SQLPARSE = {"from.mixed_comma_join_any": "KF-14f", "where.subquery_under_bool": "KF-14f", "having.subquery": "KF-14f",
             "setop.paren_later_branches": "KF-14f", "setop.paren_first_branch": "KF-14f", "update.set_subquery": "KF-14f",
-            "update.where_subquery": "KF-14f", "select.scalar_subquery": "KF-14f"}
+            "update.where_subquery": "KF-14f", "select.scalar_subquery": "KF-14f", "join.parenthesised_group": "KF-14f"}
 
 
 def build(tier, rnd):
